@@ -64,6 +64,10 @@ def d_fn(fn, text, subs=(), props=("C01", "C07", "C09")):
     return w_fn(DI, fn, text, props=props, subs=subs, prefix="w_dec_", cls="Decoder")
 
 
+PROD = VItem(LIB, ["const PROD_PARAMS"], exec_const_ensures="PROD_PARAMS.max_initial_size@ == 252, "
+             "PROD_PARAMS.max_subsequent_size@ == 64008, params_ok(PROD_PARAMS)")
+PROD.props = ["C01", "C02", "C07", "C09"]
+
 HCOBS = VerusUnit(
     name="hcobs",
     uses=["use std::num::NonZeroUsize;", "use std::num::NonZeroU32;", "use std::io::Read;"],
@@ -75,8 +79,7 @@ HCOBS = VerusUnit(
         VGhost("frame_spec.rs"),
         VItem(LIB, ["struct Parameters"]),
         VGhost("params_spec.rs"),
-        VItem(LIB, ["const PROD_PARAMS"], exec_const_ensures="PROD_PARAMS.max_initial_size@ == 252, "
-              "PROD_PARAMS.max_subsequent_size@ == 64008, params_ok(PROD_PARAMS)"),
+        PROD,
         VItem(ENC, ["struct EncoderState"]),
         VGhost("enc_state_spec.rs"),
         VImpl("impl EncoderState", [
